@@ -1046,6 +1046,27 @@ def _partial_event(v):
     return None
 
 
+def buffered_forwarder(fn, defs, cbname):
+    """(list name, event, replay For node) when `cbname = <list>.append` for a local list that is replayed, element by element and
+    unchanged, through a `functools.partial(self.event_dispatcher.notify, self.Event.X)` notifier; else None."""
+    ds = [v for v, k, st in defs.get(cbname, []) if k == 'assign']
+    if len(ds) != 1 or not (isinstance(ds[0], ast.Attribute) and ds[0].attr == 'append' and isinstance(ds[0].value, ast.Name)):
+        return None
+    lst = ds[0].value.id
+    lds = [v for v, k, st in defs.get(lst, []) if k == 'assign']
+    if len(lds) != 1 or not (isinstance(lds[0], ast.List) and not lds[0].elts):
+        return None
+    for lp in walk_no_nested(fn):
+        if isinstance(lp, ast.For) and isinstance(lp.iter, ast.Name) and lp.iter.id == lst and isinstance(lp.target, ast.Name) and len(lp.body) == 1 \
+                and isinstance(lp.body[0], ast.Expr) and isinstance(lp.body[0].value, ast.Call):
+            c = lp.body[0].value
+            if isinstance(c.func, ast.Name) and len(c.args) == 1 and not c.keywords and isinstance(c.args[0], ast.Name) and c.args[0].id == lp.target.id:
+                evs = {_partial_event(v) for v, k, st in defs.get(c.func.id, [])}
+                if len(evs) == 1 and None not in evs:
+                    return (lst, evs.pop(), lp)
+    return None
+
+
 class _Session:
     """Registered / produced events of a protocol Session class."""
 
@@ -1057,6 +1078,7 @@ class _Session:
         self.notifies = []      # (fi, call, event)
         self.installs = []      # (fi, call, attr, event, cbtext, receiver expr)
         self.unknown = []       # (fi, node, text)
+        self.buffers = {}       # (func qual, callback name) -> (buffer list name, event, replay loop)
         for m in self.ci.methods.values():
             fn = m.node
             defs = U.local_defs(fn)
@@ -1082,6 +1104,13 @@ class _Session:
                         ds = defs.get(a.id, [])
                         evs = {_partial_event(v) for v, kind, _ in ds}
                         ev = evs.pop() if len(evs) == 1 else '?'
+                    if (ev is None or ev == '?') and isinstance(a, ast.Name):
+                        # a buffering forwarder: `buf = []; cb = buf.append` installed while header blocks are read, the buffer
+                        # replayed through the event's own notifier afterwards (`for d in buf: notifier(d)`)
+                        fw = buffered_forwarder(fn, defs, a.id)
+                        if fw is not None:
+                            ev = fw[1]
+                            self.buffers[(m.qual, a.id)] = fw
                     self.installs.append((m, c, attr, ev or '?', norm_text(a), recv))
 
 
@@ -1139,6 +1168,10 @@ def _event_table(ck, sess, expected, produced, proto):
         else:
             want = 'add_%s_listener' % kind.rstrip('?')
             right = [x for x in adds if x[2] == want]
+            # a buffered header listener and the notifier it hands over to count as one feed
+            nbuf = [x for x in right if (x[0].qual, norm_text(x[1].args[0])) in sess.buffers]
+            if nbuf and len(right) - len(nbuf) == 1:
+                right = [x for x in right if x not in nbuf]
             wrong = [x for x in adds if x[2] != want]
             optional = kind.endswith('?')
             good = not wrong and not nots and (len(right) == 1 or (optional and not right))
@@ -1243,6 +1276,36 @@ def _d4_http(ctx):
         ck.expect(not late, 'C04-D4', fi.qual, 'write_body < request_data listener removed < end_request',
                   'the request body is sent after the write listener was removed / the request record was closed', fi.loc(wb[0].stmt))
     for m, c, a, e, cb, recv in sess.installs:
+        if a == 'remove_read_listener' and (m.qual, cb) in sess.buffers:
+            # the hand-over from the header buffer to the direct listener: remove buffer listener, replay, install the notifier -
+            # in this order, with no read of the stream in between, and the buffer emptied before every header block that is read
+            lst, ev_, lp = sess.buffers[(m.qual, cb)]
+            mc = ctx.cfg(m)
+            mpm = U.parents(m.node)
+            rem = _nodes_of_call(mc, mpm, c)
+            rep = mc.nodes_of(lp)
+            direct = [n for mm, cc, aa, ee, cbb, rr_ in sess.installs if mm is m and aa == 'add_read_listener' and ee == ev_ and (m.qual, cbb) not in sess.buffers
+                      for n in _nodes_of_call(mc, mpm, cc)]
+            reads_ = [n for n in mc.stmt_nodes() if any(U.attr_name(x) in ('read_response', 'read_body', 'readline', 'read') for x in FL.node_calls(n))]
+            d2 = mc.dominators()
+            okh = bool(rem) and bool(rep) and bool(direct) and all(any(x.id in d2[y.id] for x in rem) for y in rep) \
+                and all(any(x.id in d2[y.id] for x in rep) for y in direct)
+            # no read between the removal and the direct installation
+            between = [r for r in reads_ if any(x.id in d2[r.id] for x in rem) and not any(x.id in d2[r.id] for x in direct)]
+            # the buffer is emptied in the loop that reads, before the read
+            emptied = False
+            for wl in [x for x in walk_no_nested(m.node) if isinstance(x, ast.While)]:
+                rd = [x for x in ast.walk(wl) if isinstance(x, ast.Call) and U.attr_name(x) == 'read_response']
+                clr = [x for x in ast.walk(wl) if (isinstance(x, ast.Delete) and any(isinstance(t, ast.Subscript) and isinstance(t.value, ast.Name) and t.value.id == lst for t in x.targets))
+                       or (isinstance(x, ast.Call) and U.attr_name(x) == 'clear' and isinstance(x.func.value, ast.Name) and x.func.value.id == lst)]
+                if rd and clr and min(x.lineno for x in clr) < min(x.lineno for x in rd):
+                    emptied = True
+            no_loop = not any(isinstance(x, ast.While) and any(isinstance(y, ast.Call) and U.attr_name(y) == 'read_response' for y in ast.walk(x)) for x in walk_no_nested(m.node))
+            ck.expect(okh and not between and (emptied or no_loop), 'C04-D4', m.qual, 'header buffer: emptied before each block, removed, replayed unchanged, notifier installed',
+                      'the hand-over from the buffered header listener to the response_data notifier is not remove < replay < install with no '
+                      'read in between and an emptied buffer per block: bytes of the response are missing from, doubled in, or bytes of an interim '
+                      'response are added to the response record', m.loc(c))
+            continue
         if a == 'remove_read_listener':
             mc = ctx.cfg(m)
             en = [n for mm, cc, ee in sess.notifies if mm is m and ee == 'end_response' for n in _nodes_of_call(mc, U.parents(m.node), cc)]
